@@ -34,7 +34,8 @@ type Pigeon struct {
 	KeepAliveEvery                        int64
 	lastKeepAlive                         int64
 	Version                               string
-	EagerConfirm                          bool // confirm batches before their estimate is elected
+	EagerConfirm                          bool  // confirm batches before their estimate is elected
+	BatchEstimateLag                      int64 // only estimate a batch this many blocks after it was created (slow estimator)
 	ClaimsPerTick                         int
 	ClaimDelay                            uint64 // only report events at least this many remote blocks old
 	NoSkyway                              bool
@@ -557,6 +558,9 @@ func (p *Pigeon) tickSkyway(chain string) {
 		res, err := sk.LastPendingBatchForGasEstimation(ctx, &skywaytypes.QueryLastPendingBatchForGasEstimationRequest{Address: p.V.Acct.ValAddr(), ChainReferenceId: chain})
 		if err == nil {
 			for _, bt := range res.Batch {
+				if b.N.Height-int64(bt.PalomaBlockCreated) < p.BatchEstimateLag {
+					continue
+				}
 				v := p.honestBatchEstimate(bt.BatchNonce)
 				if p.Hooks.BatchEstimate != nil {
 					v = p.Hooks.BatchEstimate(chain, bt.BatchNonce, v)
